@@ -329,7 +329,7 @@ def run(ctx):
                        "entry names are distinct, NUL-free, ASCII or UTF-8 with the language-encoding flag; no zip64 / data descriptors / encryption",
                        "DEX entry = root-level name matching ^classes[0-9]*\\.dex$ with ASCII digits (classes01.dex counts)",
                        "get_dex() without classes.dex may return b'' or raise FileNotPresent"]
-    n = 1600 if ctx.quick else 16000
+    n = 1600 if ctx.quick else 96000
     per = n // 16
     ctx.run_shards(MOD, "shard", [[i, per, (i == 0) or (not ctx.quick and i < 8)] for i in range(16)], timeout=1500)
     for c in ("APK_constructed", "get_files", "get_dex_names", "get_all_dex", "is_multidex"):
